@@ -152,7 +152,7 @@ def main():
         "big": dict(module="MCRenderIOBig", cfg="d.cfg", workers=8 if thorough else 2, timeout=1500,
                     files={"d.cfg": cfg("RenderIO_big.cfg", Emit="= TRUE"), "MCRenderIOBig.tla": big_text}),
     }
-    bl = "= {1, 2, 3}" if thorough else "= {2}"
+    bl = "= {1, 3}" if thorough else "= {2}"
     jobs["bmc"] = dict(module="RenderIOBytes", cfg="e.cfg", workers=8 if thorough else 2, timeout=1500,
                        files={"e.cfg": cfg("RenderIOBytes_mc.cfg", DocLens=bl)})
     jobs["bgen"] = dict(module="RenderIOBytes", cfg="f.cfg", workers=1, timeout=1500,
